@@ -193,206 +193,210 @@ impl<'a> Iterator for Lexer<'a> {
     type Item = Token<'a>;
 
     fn next(&mut self) -> Option<Token<'a>> {
-        // Consume whitespace and comments
-        let mut comment_start: Option<usize> = None;
-        while let Some(c) = self.s[self.l..self.u].chars().next() {
-            let should_skip = match c {
-                '\n' => {
-                    if let Some(comment_start) = comment_start.take() {
-                        return Some(Token {
-                            value: TokenValue::Comment,
-                            source: Str {
-                                value: self.s,
-                                start: comment_start,
-                                end: self.l,
-                            },
-                        });
+        // A loop rather than a recursive call: an invalid character is skipped and the scan
+        // starts over, and the input can hold arbitrarily many invalid characters in a row.
+        loop {
+            // Consume whitespace and comments
+            let mut comment_start: Option<usize> = None;
+            while let Some(c) = self.s[self.l..self.u].chars().next() {
+                let should_skip = match c {
+                    '\n' => {
+                        if let Some(comment_start) = comment_start.take() {
+                            return Some(Token {
+                                value: TokenValue::Comment,
+                                source: Str {
+                                    value: self.s,
+                                    start: comment_start,
+                                    end: self.l,
+                                },
+                            });
+                        }
+                        true
                     }
-                    true
-                }
-                '#' => {
-                    if comment_start.is_none() {
-                        comment_start = Some(self.l + 1);
+                    '#' => {
+                        if comment_start.is_none() {
+                            comment_start = Some(self.l + 1);
+                        }
+                        true
                     }
-                    true
+                    c => comment_start.is_some() || c.is_whitespace(),
+                };
+                if !should_skip {
+                    break;
                 }
-                c => comment_start.is_some() || c.is_whitespace(),
-            };
-            if !should_skip {
-                break;
+                self.l += c.len_utf8();
             }
+            // Now look at the token
+            let mut iter = self.s[self.l..self.u].chars();
+            let c = iter.next()?;
+            let start = self.l;
             self.l += c.len_utf8();
-        }
-        // Now look at the token
-        let mut iter = self.s[self.l..self.u].chars();
-        let c = iter.next()?;
-        let start = self.l;
-        self.l += c.len_utf8();
-        use TokenValue::*;
-        let value = match c {
-            '[' | '(' => {
-                let closing = self.op.get(self.op_i).cloned().flatten();
-                let open = Str {
-                    value: self.s,
-                    start,
-                    end: start + 1,
-                };
-                match &closing {
-                    Some(closing) => {
-                        let close = closing.str(self.s);
-                        let want = if c == '[' { "]" } else { ")" };
-                        if close.str() != want {
-                            self.errs.add(Error::MismatchedBraces { open, close });
-                        }
-                    }
-                    None => {
-                        self.errs.add(Error::UnmatchedOpeningBracket { open });
-                    }
-                };
-                self.op_i += 1;
-                if c == '[' {
-                    SquareOpen { closing }
-                } else {
-                    RoundOpen { closing }
-                }
-            }
-            ']' => SquareClose,
-            ')' => RoundClose,
-            '=' => Equal,
-            ',' => Comma,
-            'a'..='z' | 'A'..='Z' => {
-                while let Some(n @ 'a'..='z' | n @ 'A'..='Z' | n @ '_') = iter.next() {
-                    self.l += n.len_utf8();
-                }
-                Keyword
-            }
-            '"' => {
-                // TODO: only allocate a buffer if we're going to use it
-                let mut buf: std::string::String = Default::default();
-                loop {
-                    let Some(n) = iter.next() else {
-                        // TODO: error in this case?
-                        return None;
+            use TokenValue::*;
+            let value = match c {
+                '[' | '(' => {
+                    let closing = self.op.get(self.op_i).cloned().flatten();
+                    let open = Str {
+                        value: self.s,
+                        start,
+                        end: start + 1,
                     };
-                    self.l += n.len_utf8();
-                    let c: char = match n {
-                        '"' => {
-                            break;
+                    match &closing {
+                        Some(closing) => {
+                            let close = closing.str(self.s);
+                            let want = if c == '[' { "]" } else { ")" };
+                            if close.str() != want {
+                                self.errs.add(Error::MismatchedBraces { open, close });
+                            }
                         }
-                        // Escape character
-                        //
-                        // We support a subset of Rust escape characters, which are documented
-                        // here: https://doc.rust-lang.org/reference/expressions/literal-expr.html.
-                        '\\' => {
-                            let Some(n) = iter.next() else {
-                                // TODO: error in this case?
-                                return None;
-                            };
-                            self.l += n.len_utf8();
-                            match n {
-                                '\"' | '\'' | '\\' => n,
-                                'n' => '\n',
-                                't' => '\t',
-                                '0' => '\0',
-                                'r' => '\r',
-                                'u' => {
-                                    let Some(n) = iter.next() else {
-                                        // TODO: error in this case?
-                                        return None;
-                                    };
-                                    self.l += n.len_utf8();
-                                    if n != '{' {
-                                        // TODO error
-                                        continue;
-                                    }
-                                    let mut i: u32 = 0;
-                                    let mut valid = true;
-                                    loop {
+                        None => {
+                            self.errs.add(Error::UnmatchedOpeningBracket { open });
+                        }
+                    };
+                    self.op_i += 1;
+                    if c == '[' {
+                        SquareOpen { closing }
+                    } else {
+                        RoundOpen { closing }
+                    }
+                }
+                ']' => SquareClose,
+                ')' => RoundClose,
+                '=' => Equal,
+                ',' => Comma,
+                'a'..='z' | 'A'..='Z' => {
+                    while let Some(n @ 'a'..='z' | n @ 'A'..='Z' | n @ '_') = iter.next() {
+                        self.l += n.len_utf8();
+                    }
+                    Keyword
+                }
+                '"' => {
+                    // TODO: only allocate a buffer if we're going to use it
+                    let mut buf: std::string::String = Default::default();
+                    loop {
+                        let Some(n) = iter.next() else {
+                            // TODO: error in this case?
+                            return None;
+                        };
+                        self.l += n.len_utf8();
+                        let c: char = match n {
+                            '"' => {
+                                break;
+                            }
+                            // Escape character
+                            //
+                            // We support a subset of Rust escape characters, which are documented
+                            // here: https://doc.rust-lang.org/reference/expressions/literal-expr.html.
+                            '\\' => {
+                                let Some(n) = iter.next() else {
+                                    // TODO: error in this case?
+                                    return None;
+                                };
+                                self.l += n.len_utf8();
+                                match n {
+                                    '\"' | '\'' | '\\' => n,
+                                    'n' => '\n',
+                                    't' => '\t',
+                                    '0' => '\0',
+                                    'r' => '\r',
+                                    'u' => {
                                         let Some(n) = iter.next() else {
                                             // TODO: error in this case?
                                             return None;
                                         };
                                         self.l += n.len_utf8();
-                                        if n == '}' {
-                                            // TODO: error if no number was provided.
-                                            break;
+                                        if n != '{' {
+                                            // TODO error
+                                            continue;
                                         }
-                                        match n.to_digit(16) {
-                                            None => {
-                                                valid = false;
+                                        let mut i: u32 = 0;
+                                        let mut valid = true;
+                                        loop {
+                                            let Some(n) = iter.next() else {
+                                                // TODO: error in this case?
+                                                return None;
+                                            };
+                                            self.l += n.len_utf8();
+                                            if n == '}' {
+                                                // TODO: error if no number was provided.
+                                                break;
                                             }
-                                            Some(d) => {
-                                                // A value that doesn't fit in a u32 is not a
-                                                // valid Unicode scalar value.
-                                                match i
-                                                    .checked_mul(16)
-                                                    .and_then(|i| i.checked_add(d))
-                                                {
-                                                    Some(n) => i = n,
-                                                    None => valid = false,
+                                            match n.to_digit(16) {
+                                                None => {
+                                                    valid = false;
+                                                }
+                                                Some(d) => {
+                                                    // A value that doesn't fit in a u32 is not a
+                                                    // valid Unicode scalar value.
+                                                    match i
+                                                        .checked_mul(16)
+                                                        .and_then(|i| i.checked_add(d))
+                                                    {
+                                                        Some(n) => i = n,
+                                                        None => valid = false,
+                                                    }
                                                 }
                                             }
                                         }
+                                        if !valid {
+                                            // TODO: error
+                                            continue;
+                                        }
+                                        let Some(c) = char::from_u32(i) else {
+                                            // TODO: error
+                                            continue;
+                                        };
+                                        c
                                     }
-                                    if !valid {
-                                        // TODO: error
+                                    _ => {
+                                        self.errs.add(Error::UnknownEscapeSequence {
+                                            sequence: Str {
+                                                value: self.s,
+                                                start: self.l - n.len_utf8() - 1,
+                                                end: self.l,
+                                            },
+                                        });
                                         continue;
                                     }
-                                    let Some(c) = char::from_u32(i) else {
-                                        // TODO: error
-                                        continue;
-                                    };
-                                    c
-                                }
-                                _ => {
-                                    self.errs.add(Error::UnknownEscapeSequence {
-                                        sequence: Str {
-                                            value: self.s,
-                                            start: self.l - n.len_utf8() - 1,
-                                            end: self.l,
-                                        },
-                                    });
-                                    continue;
                                 }
                             }
-                        }
-                        _ => n,
-                    };
-                    buf.push(c);
+                            _ => n,
+                        };
+                        buf.push(c);
+                    }
+                    // If the string is exactly in this source (e.g. no special control sequences)
+                    // then we can avoid an allocation.
+                    let source = &self.s[start + 1..self.l - 1];
+                    String(if buf.len() == source.len() {
+                        Cow::Borrowed(source)
+                    } else {
+                        Cow::Owned(buf)
+                    })
                 }
-                // If the string is exactly in this source (e.g. no special control sequences)
-                // then we can avoid an allocation.
-                let source = &self.s[start + 1..self.l - 1];
-                String(if buf.len() == source.len() {
-                    Cow::Borrowed(source)
-                } else {
-                    Cow::Owned(buf)
-                })
-            }
-            '0'..='9' => {
-                let initial_value = (c as i32) - ('0' as i32);
-                self.parse_number(false, initial_value, start)
-            }
-            '-' => self.parse_number(true, 0, start),
-            _ => {
-                self.errs.add(Error::InvalidCharacter {
-                    char: Str {
-                        value: self.s,
-                        start,
-                        end: self.l,
-                    },
-                });
-                return self.next();
-            }
-        };
-        Some(Token {
-            value,
-            source: Str {
-                value: self.s,
-                start,
-                end: self.l,
-            },
-        })
+                '0'..='9' => {
+                    let initial_value = (c as i32) - ('0' as i32);
+                    self.parse_number(false, initial_value, start)
+                }
+                '-' => self.parse_number(true, 0, start),
+                _ => {
+                    self.errs.add(Error::InvalidCharacter {
+                        char: Str {
+                            value: self.s,
+                            start,
+                            end: self.l,
+                        },
+                    });
+                    continue;
+                }
+            };
+            return Some(Token {
+                value,
+                source: Str {
+                    value: self.s,
+                    start,
+                    end: self.l,
+                },
+            });
+        }
     }
 }
 
